@@ -128,6 +128,8 @@ func ExecC04(t *testing.T, pa any, col *kernel.Collector) []kernel.Violation {
 }
 
 func execC04(p *Plan, col *kernel.Collector) []kernel.Violation {
+	simStart := time.Now() // the bubble's clock: elapsed = simulated time
+	defer func() { col.AddSim(time.Since(simStart)) }()
 	ResetCrit()
 	defer InstallMapOrder(p.OrderSeed)()
 	mrand.Seed(int64(HashPlan(p) & 0x7fffffffffffffff))
